@@ -169,4 +169,45 @@ theorem denseOn_lexSorted (U : List κ) (vars : List Nat) (ops : List (Cur κ)) 
       rw [← hx, ← hy]; exact hab
 
 end
+/-! ### all points of a shape -/
+section
+variable {κ : Type} [LT κ] [DecidableRel (α := κ) (· < ·)] [DecidableEq κ] [StrictTotal κ]
+
+theorem mem_points (U : List κ) : ∀ (d : Nat) (q : List κ), q.length = d → (∀ x ∈ q, x ∈ U) → q ∈ points U d
+  | 0, q, hq, _ => by
+    rw [List.length_eq_zero_iff.1 hq]; exact List.mem_singleton.2 rfl
+  | d + 1, q, hq, h => by
+    cases q with
+    | nil => cases hq
+    | cons c q' =>
+      show c :: q' ∈ List.flatMap _ U
+      rw [List.mem_flatMap]
+      refine ⟨c, h c (List.mem_cons_self ..), List.mem_map.2 ⟨q', ?_, rfl⟩⟩
+      exact mem_points U d q' (by simpa using hq) (fun x hx => h x (List.mem_cons_of_mem _ hx))
+
+theorem points_len (U : List κ) : ∀ (d : Nat) (q : List κ), q ∈ points U d → q.length = d
+  | 0, q, h => by rw [List.mem_singleton.1 h]; rfl
+  | d + 1, q, h => by
+    have h' : q ∈ List.flatMap (fun c => (points U d).map (fun p => c :: p)) U := h
+    obtain ⟨c, _, hq⟩ := List.mem_flatMap.1 h'
+    obtain ⟨q', hq', rfl⟩ := List.mem_map.1 hq
+    simp [points_len U d q' hq']
+
+theorem points_sorted (U : List κ) (hU : Asc U) : ∀ d, (points U d).Pairwise (fun a b => lexLt a b = true)
+  | 0 => List.pairwise_singleton _ _
+  | d + 1 => by
+    show List.Pairwise _ (List.flatMap (fun c => (points U d).map (fun p => c :: p)) U)
+    rw [List.pairwise_flatMap]
+    constructor
+    · intro c _
+      rw [List.pairwise_map]
+      exact (points_sorted U hU d).imp (fun {a b} hab => by
+        rw [lexLt_cons, if_neg (irrefl c), if_pos rfl]; exact hab)
+    · exact hU.imp (fun {a b} hab x hx y hy => by
+        obtain ⟨x', _, rfl⟩ := List.mem_map.1 hx
+        obtain ⟨y', _, rfl⟩ := List.mem_map.1 hy
+        rw [lexLt_cons, if_pos hab])
+
+end
+
 end Ft.C06
